@@ -60,6 +60,8 @@ MStep(m, e, idx) ==
             b1 == IF e.inv # eff.inv /\ e.inv # -2 THEN Flag(m.bad, "C14", "C14_ValueOfKey", idx) ELSE m.bad
             b2 == IF (e.j \in m.started) = eff.hit THEN Flag(b1, "C14", "C14_OneRecompute", idx) ELSE b1
         IN [m EXCEPT !.store = eff.store, !.order = eff.order, !.bad = b2]
+    \* a call that never ends (the harness found the loop spinning or everything blocked) is no answer at all
+    [] e.e = "End" /\ e.status # "ok" -> [m EXCEPT !.bad = Flag(@, "C14", "C14_NoAnswer", idx)]
     [] e.e = "Evict" -> [m EXCEPT !.store = Drop(@, e.k), !.order = SelectSeq(@, LAMBDA x : x # e.k)]
     [] OTHER -> m
 =============================================================================
